@@ -92,3 +92,114 @@ def cap0_rule(rep, u, files):
                     (rep.proved if ok else rep.violated)("R-CAP0", fn, "capacity-minus-one:%s" % key(l), desc, why if ok else
                                                          "with capacity 0 the function reports SIZE_MAX characters written: `off += fmt_as_uptime(&ut, buf + off, cap - off)` wraps the caller's offset", y.get("ln"))
     return n
+
+
+# ------------------------------------------------------------------ third pass (replays/C12-hunt3)
+
+def hex2bin_exact_rule(rep, u, fname="cvt_hex2bin"):
+    """the capacity the decoder demands is what it writes: separators are skipped by the loop, so they do not count; a refusal
+    reports the size with which the retry succeeds (partial evaluation on concrete texts)"""
+    from rules import r_stride
+    fn = u.fn(fname)
+    if fn is None or not fn.has_cfg:
+        raise driver.AnalysisBroken("anchor %s vanished" % fname)
+    rep.functions.add(fname)
+    pn = [p["n"] for p in fn.params]
+    n = 0
+    for txt in (b"00:1b:21", b"de ad be ef", b"0x7f", b"abcd", b"a"):
+        need = sum(1 for c in txt if chr(c) in "0123456789abcdefABCDEF") // 2
+        for cap in sorted({max(1, need - 1), max(1, need), need + 1}):
+            pe = r_stride.PE(u)
+            pe.memory = {0x2000 + i: c for i, c in enumerate(txt)}
+            ev, ret = pe.trace(fn, {pn[0]: 0x2000, pn[1]: len(txt), pn[2]: 0, pn[3]: 0x6000, pn[4]: cap, pn[5]: 0x7000}, max_steps=40000)
+            got = ev[-1][1].get("*(%s)" % pn[5]) if ev else None
+            n += 1
+            inst = "hex-capacity[%r into %d]" % (txt.decode(), cap)
+            desc = "%s(%r): %d byte(s) are produced; a buffer of %d is %s" % (fname, txt.decode(), need, cap, "enough" if cap >= need else "refused with the needed size")
+            if isinstance(ret, str):
+                rep.undecided("R-EXACT", fn, inst, desc, ret)
+            elif cap >= need:
+                (rep.proved if ret == 0 and got == need else rep.violated)("R-EXACT", fn, inst, desc, "returns 0, size %s" % got if ret == 0 and got == need else
+                                                                           "returns %s (size %s): the capacity test counts the separators the decoder skips - \"00:1b:21:3c:9d:f8\" does not fit 6 bytes" % (ret, got))
+            else:
+                (rep.proved if ret != 0 and got == need else rep.violated)("R-EXACT", fn, inst, desc, "returns %s, reports %s" % (ret, got) if ret != 0 and got == need else
+                                                                           "returns %s, reported size %s (needed %d)" % (ret, got, need))
+    return n
+
+
+def home_dir_rule(rep, u, fname="user_home_dir_get"):
+    """the home directory is copied only into a buffer that holds it (the environment decides its length)"""
+    from rules import r_stride
+    fn = u.fn(fname)
+    if fn is None or not fn.has_cfg:
+        raise driver.AnalysisBroken("anchor %s vanished" % fname)
+    rep.functions.add(fname)
+    pn = [p["n"] for p in fn.params]
+    n = 0
+    for cap, L in ((31, 32), (32, 32), (0, 1), (1, 1)):
+        pe = r_stride.PE(u, call_default={"getenv": 0x9000, "strlen": L})
+        ev, ret = pe.trace(fn, {pn[0]: 0x6000, pn[1]: cap, pn[2]: 0x7000})
+        copied = any(any(y.get("k") == "call" and "memcpy" in (y.get("fn") or "") for y, _ in walk(e)) for e, b in ev)
+        n += 1
+        inst = "home-dir[%d into %d]" % (L, cap)
+        desc = "%s: a %d byte directory name and a buffer of %d" % (fname, L, cap)
+        if isinstance(ret, str):
+            rep.undecided("R-CAP0", fn, inst, desc, ret)
+        elif cap < L:
+            (rep.violated if copied or ret == 0 else rep.proved)("R-CAP0", fn, inst, desc, "the copy runs (status %s): `NULL == buf && buf_size < size` can never refuse a real buffer - "
+                                                                 "HOME of 32 characters overflows a 31 byte heap buffer" % ret if copied or ret == 0 else "refused (%s)" % ret)
+        else:
+            (rep.proved if ret == 0 and copied else rep.violated)("R-CAP0", fn, inst, desc, "copied" if ret == 0 and copied else "status %s" % ret)
+    return n
+
+
+def sysctl_terminator_rule(rep, u, fname="sysctl_str_to_buf"):
+    """the terminator after the value read from /proc lies inside the buffer even when the value fills what it was given"""
+    from rules import r_stride
+    fn = u.fn(fname)
+    if fn is None or not fn.has_cfg:
+        raise driver.AnalysisBroken("anchor %s vanished" % fname)
+    rep.functions.add(fname)
+    rd = [c for _p, _r, c, _ps in fn.calls({"read_file_buf"})]
+    if len(rd) != 1:
+        raise driver.AnalysisBroken("%s: expected one read_file_buf call" % fname)
+    n = 0
+    for buf_size, descr in ((9, 4), (13, 4), (6, 4)):
+        # first trace: find the capacity handed to the reader; second: the file fills it
+        cap = None
+        for out in (1, None):
+            pe = r_stride.PE(u, call_default={"read_file_buf": 0, "snprintf": 24})
+            pe.out_default = {"read_file_buf": {4: out if out is not None else cap}}
+            pe.memory = {0x6000 + i: 0x41 for i in range(0, 64)}
+            bind = {"mib": 0x3000, "mib[0]": 0, "mib[1]": 0, "mib_cnt": 2, "descr": 0x4000, "descr_size": descr, "buf": 0x6000, "buf_size": buf_size, "buf_size_ret": 0x7000}
+            ev, ret = pe.trace(fn, bind)
+            if out is not None:
+                for e, b in ev:
+                    for y, _ in walk(e):
+                        if y is rd[0]:
+                            try:
+                                cap = pe.evals(y["args"][3], b, 0)
+                                cap = sorted(v for v, s_ in cap)[0] if cap else None
+                            except Exception:
+                                cap = None
+                if not isinstance(cap, int):
+                    break
+        n += 1
+        inst = "terminator-inside[buffer %d, prefix %d]" % (buf_size, descr)
+        desc = "%s: a value that fills what the reader was given, buffer %d with a %d byte prefix" % (fname, buf_size, descr)
+        if isinstance(ret, str) or not isinstance(cap, int):
+            # refused up front (no room for a value) is fine
+            if isinstance(ret, int) and ret != 0:
+                rep.proved("R-TERMROOM", fn, inst, desc, "refused (%s)" % ret)
+            else:
+                rep.undecided("R-TERMROOM", fn, inst, desc, "not evaluated (%s, capacity %s)" % (ret, cap))
+            continue
+        if ret != 0:
+            rep.proved("R-TERMROOM", fn, inst, desc, "refused (%s)" % ret)
+            continue
+        size = ev[-1][1].get("*(buf_size_ret)")
+        ok = isinstance(size, int) and size < buf_size
+        (rep.proved if ok else rep.violated)("R-TERMROOM", fn, inst, desc, "terminator at index %s" % size if ok else
+                                             "the reader gets the whole rest of the buffer (%s bytes) and the terminator is stored at index %s of %d: one byte behind the buffer "
+                                             "(sysctl_str_to_buf(.., \"OS: \", 4, malloc(9), 9) with \"Linux\")" % (cap, size, buf_size))
+    return n
